@@ -64,7 +64,7 @@ SCHEDULE_FOLDERS = [
 ]
 
 
-def make_sched_folder(spec: Dict, n_variants: int = 2) -> Tuple[str, Dict]:
+def make_sched_folder(spec: Dict, n_variants: int = 2, vary_obs: bool = False) -> Tuple[str, Dict]:
     """Write a generated scenario as an episode-scheduled FOLDER (base scenario + per-episode variant files that define
     the green agents through a YAML anchor, the placeholder mechanism of the shipped scheduled scenarios)."""
     import tempfile
@@ -78,8 +78,27 @@ def make_sched_folder(spec: Dict, n_variants: int = 2) -> Tuple[str, Dict]:
                    "agent_settings": {"action_probabilities": {0: 1.0}},
                    "reward_function": {"reward_components": [{"type": "dummy"}]}}]
     root = tempfile.mkdtemp(prefix="gensched_", dir=os.environ.get("VERIF_WORK") or os.environ.get("HOME") or "/tmp")
+    blue_obs = []
+    if vary_obs:
+        # every episode variant declares another observation space for the learning agent (through a second anchor):
+        # a NON-constant scenario, the declared space has to follow the episode
+        others = copy.deepcopy(others)
+        blue = next(a for a in others if a.get("type") == "proxy-agent" and "observation_space" in a)
+        for k in range(n_variants):
+            sk = copy.deepcopy(spec)
+            o = sk["obs"]
+            o["num_services"] = (o["num_services"] + k) % 4
+            o["num_files"] = (o["num_files"] + k) % 3
+            o["num_nics"] = (o["num_nics"] + k) % 3
+            if k % 2:
+                o["include_nmne"] = not o["include_nmne"]
+            ck, _ = gen_scenario.build(sk)
+            bk = next(a for a in ck["agents"] if a.get("ref") == blue.get("ref"))
+            blue_obs.append(bk["observation_space"])
+        blue["observation_space"] = "__BLUEOBS__"
     base = dict(cfg, agents=["__GREENS__"] + others)
-    text = yaml.safe_dump(base, sort_keys=False).replace("- __GREENS__", "- *greens")
+    text = yaml.safe_dump(base, sort_keys=False).replace("- __GREENS__", "- *greens").replace(
+        "observation_space: __BLUEOBS__", "observation_space: *blue_obs")
     with open(os.path.join(root, "base.yaml"), "w") as f:
         f.write(text)
     sched = {}
@@ -94,6 +113,8 @@ def make_sched_folder(spec: Dict, n_variants: int = 2) -> Tuple[str, Dict]:
                 g["agent_settings"]["action_probabilities"] = {kk: w[i] / tot for i, kk in enumerate(keys)}
         with open(os.path.join(root, f"greens_{k}.yaml"), "w") as f:
             f.write("greens: &greens\n" + "\n".join("  " + l for l in yaml.safe_dump(gs, sort_keys=False).splitlines()) + "\n")
+            if vary_obs:
+                f.write("blue_obs: &blue_obs\n" + "\n".join("  " + l for l in yaml.safe_dump(blue_obs[k], sort_keys=False).splitlines()) + "\n")
         sched[k] = [f"greens_{k}.yaml"]
     with open(os.path.join(root, "schedule.yaml"), "w") as f:
         yaml.safe_dump({"base_scenario": "base.yaml", "schedule": sched}, f)
@@ -102,7 +123,7 @@ def make_sched_folder(spec: Dict, n_variants: int = 2) -> Tuple[str, Dict]:
 
 def case_cfg(case: Dict) -> Tuple[Any, Optional[Dict]]:
     if case["src"] == "genfolder":
-        return make_sched_folder(case["spec"], case.get("n_variants", 2))
+        return make_sched_folder(case["spec"], case.get("n_variants", 2), bool(case.get("vary_obs")))
     if case["src"] == "folder":
         # an episode-scheduled scenario: PrimaiteGymEnv takes the folder path and composes the YAML per episode
         return _resolve(case["path"]), None
